@@ -1,4 +1,5 @@
 import PebblesVerif.Proofs.Merge
+import PebblesVerif.Proofs.MergeWitness
 /-!
 # C03 — the merged schema is exactly the union of the service schemas
 
@@ -52,6 +53,37 @@ theorem mergeSchema_ok {i0 : MergeInput} {rest : List MergeInput} {R : Schema}
     cases h
     exact ⟨types, ht, rfl, rfl⟩
 
+/-- every non-`__` definition of every input is covered by a definition of the result (for a
+    definition named `Node`: if the inputs agree on `Node`) -/
+theorem covered {ins : List MergeInput} {R : Schema} (h : mergeSchema E ins = .ok R)
+    (hroot : ∀ i ∈ ins, RootsAreObjects i.schema) {i : MergeInput} (hi : i ∈ ins) {d : TypeDef}
+    (hd : d ∈ i.schema.types) (hb : isBuiltinName d.name = false)
+    (hnode : d.name = nodeInterfaceName → NodeAgree ins) : ∃ r ∈ R.types, Covers d r := by
+  cases ins with
+  | nil => cases h
+  | cons i0 rest =>
+    obtain ⟨types, ht, hR, _⟩ := mergeSchema_ok h
+    have IF := foldInputs_spec rest _ _ _ _ ht (fun i hi => hroot i (List.mem_cons_of_mem _ hi))
+    have : ∃ r ∈ types, Covers d r := by
+      rcases List.mem_cons.mp hi with rfl | hi'
+      · exact IF.keeps d hd
+      · apply IF.adds i hi' d hd hb
+        intro hN x hx hxN
+        exact nodeAgree_inInputs (hnode hN) ⟨i, hi, hd⟩ hx hN hxN
+    obtain ⟨r, hr, hc⟩ := this
+    refine ⟨_, ?_, Covers.trans hc (refill_covers (mergePossibleTypes ((i0 :: rest).map (·.schema)) types) r)⟩
+    rw [hR]
+    exact List.mem_map_of_mem (f := fun d => if d.kind == .union && d.members.isEmpty then
+      { d with members := assocGet (mergePossibleTypes ((i0 :: rest).map (·.schema)) types) d.name } else d) hr
+
+/-- keys of the result are distinct when those of the first input are -/
+theorem result_nodup {i0 : MergeInput} {rest : List MergeInput} {R : Schema} (h : mergeSchema E (i0 :: rest) = .ok R)
+    (hroot : ∀ i ∈ i0 :: rest, RootsAreObjects i.schema) (hnd : TypesNodup i0.schema) : (R.types.map (·.name)).Nodup := by
+  obtain ⟨types, ht, hR, _⟩ := mergeSchema_ok h
+  have IF := foldInputs_spec rest _ _ _ _ ht (fun i hi => hroot i (List.mem_cons_of_mem _ hi))
+  rw [hR, refillUnions_names]
+  exact IF.nodup hnd
+
 /-
 FULL STATEMENT (false of the code, see `C03_superset_false_node`, `C03_superset_false_directive`):
   theorem C03_superset (h : mergeSchema facts ins = .ok R) (hroot : ∀ i ∈ ins, RootsAreObjects i.schema) :
@@ -70,22 +102,12 @@ theorem C03_superset_partial (ins : List MergeInput) (R : Schema) (h : mergeSche
   | nil => cases h
   | cons i0 rest =>
     obtain ⟨types, ht, hR, hD⟩ := mergeSchema_ok h
-    have IF := foldInputs_spec rest _ _ _ _ ht (fun i hi => hroot i (List.mem_cons_of_mem _ hi))
     constructor
     · intro S hS d hd hb it hit
       obtain ⟨i, hi, rfl⟩ := List.mem_map.mp hS
-      have : ∃ r ∈ types, Covers d r := by
-        rcases List.mem_cons.mp hi with rfl | hi
-        · exact IF.keeps d hd
-        · apply IF.adds i hi d hd hb
-          intro hN x hx hxN
-          exact nodeAgree_inInputs hnode ⟨i, List.mem_cons_of_mem _ hi, hd⟩ hx hN hxN
-      obtain ⟨r, hr, hc⟩ := this
-      rw [hR]
+      obtain ⟨r, hr, hc⟩ := covered h hroot hi hd hb (fun _ => hnode)
       simp only [typesItems, List.mem_flatMap]
-      exact ⟨_, List.mem_map_of_mem (f := fun d => if d.kind == .union && d.members.isEmpty then
-          { d with members := assocGet (mergePossibleTypes ((i0 :: rest).map (·.schema)) types) d.name } else d) hr,
-        refill_covers _ r it (hc it hit)⟩
+      exact ⟨r, hr, hc it hit⟩
     · intro S hS dd hdd
       rw [hD]
       unfold mergeDirectives
@@ -125,5 +147,98 @@ theorem C03_no_invention (ins : List MergeInput) (R : Schema) (h : mergeSchema f
       rcases mergeDirectives_noInv _ _ _ hdd with h' | h'
       · cases h'
       · exact h'
+
+/-- C03, Node types: a type that some service declares as an object implementing `Node` appears
+    exactly once in the merged schema, as an object implementing `Node`, and its fields (name,
+    result type, default) are exactly the fields the services declare on it. Full (the name is
+    not `Node` itself and not a `__…` name; `TypesNodup` is a fact of every loaded schema). -/
+theorem C03_node_union (ins : List MergeInput) (R : Schema) (h : mergeSchema facts ins = .ok R)
+    (hroot : ∀ i ∈ ins, RootsAreObjects i.schema) (hnd : ∀ i ∈ ins, TypesNodup i.schema)
+    (T : String) (hb : isBuiltinName T = false) (hT : T ≠ nodeInterfaceName)
+    (i : MergeInput) (hi : i ∈ ins) (d : TypeDef) (hd : d ∈ i.schema.types) (hdn : d.name = T)
+    (hdk : d.kind = .object) (hdN : implementsNode d = true) :
+    ∃ r ∈ R.types, r.name = T ∧ r.kind = .object ∧ implementsNode r = true ∧
+      (R.types.map (·.name)).count T = 1 ∧
+      (∀ j ∈ ins, ∀ d' ∈ j.schema.types, d'.name = T → ∀ f ∈ d'.fields, isBuiltinName f.name = false →
+        ∃ g ∈ r.fields, g.name = f.name ∧ g.type = f.type ∧ g.default = f.default) ∧
+      (∀ g ∈ r.fields, isBuiltinName g.name = false →
+        ∃ j ∈ ins, ∃ d' ∈ j.schema.types, d'.name = T ∧ ∃ f ∈ d'.fields, f.name = g.name ∧ f.type = g.type ∧ f.default = g.default) := by
+  have hNI := C03_no_invention ins R h hroot
+  rw [C03_facts] at h
+  obtain ⟨r, hr, hc⟩ := covered h hroot hi hd (hdn ▸ hb) (fun hN => absurd (hdn ▸ hN) hT)
+  have hty := type_item_mem.mp (hc _ (type_item_mem.mpr ⟨rfl, rfl⟩))
+  have hrn : r.name = T := hty.1.trans hdn
+  have hrk : r.kind = .object := hty.2.trans hdk
+  have hnodup : (R.types.map (·.name)).Nodup := by
+    cases ins with
+    | nil => cases h
+    | cons i0 rest => exact result_nodup h hroot (hnd i0 List.mem_cons_self)
+  have hiface : implementsNode r = true := by
+    have : Item.iface d.name nodeInterfaceName ∈ defItems d :=
+      iface_item_mem.mpr ⟨rfl, by rw [hdk]; rfl, by simpa [implementsNode] using hdN⟩
+    have := iface_item_mem.mp (hc _ this)
+    simpa [implementsNode] using this.2.2
+  refine ⟨r, hr, hrn, hrk, hiface, ?_, ?_, ?_⟩
+  · rw [hnodup.count, if_pos (hrn ▸ List.mem_map_of_mem hr)]
+  · intro j hj d' hd' hd'n f hf hfb
+    obtain ⟨r', hr', hc'⟩ := covered h hroot hj hd' (hd'n ▸ hb) (fun hN => absurd (hd'n ▸ hN) hT)
+    have hty' := type_item_mem.mp (hc' _ (type_item_mem.mpr ⟨rfl, rfl⟩))
+    have : r' = r := eq_of_nodup_name hnodup hr' hr (by rw [hty'.1, hd'n, hrn])
+    subst this
+    have hk' : d'.kind = .object := hty'.2.symm.trans hrk
+    have := field_item_mem.mp (hc' _ (field_item_mem.mpr ⟨rfl, by rw [hk']; rfl, f, hf, hfb, rfl, rfl, rfl⟩))
+    obtain ⟨_, _, g, hg, _, h1, h2, h3⟩ := this
+    exact ⟨g, hg, h1, h2, h3⟩
+  · intro g hg hgb
+    have hit : Item.field T g.name g.type g.default ∈ typesItems R.types := by
+      simp only [typesItems, List.mem_flatMap]
+      exact ⟨r, hr, field_item_mem.mpr ⟨hrn, by rw [hrk]; rfl, g, hg, hgb, rfl, rfl, rfl⟩⟩
+    rcases hNI.1 _ hit with ⟨S, hS, hSi⟩ | ⟨_, _, hcontra, _⟩
+    · obtain ⟨j, hj, rfl⟩ := List.mem_map.mp hS
+      simp only [typesItems, List.mem_flatMap] at hSi
+      obtain ⟨d', hd', hd'i⟩ := hSi
+      obtain ⟨h1, _, f, hf, _, h2, h3, h4⟩ := field_item_mem.mp hd'i
+      exact ⟨j, hj, d', hd', h1, f, hf, h2, h3, h4⟩
+    · cases hcontra
+
+/-! ## the full statement is false of the code: witnesses (evaluated by the kernel) -/
+
+/-- the conclusion of the full superset statement, with the facts of every loaded schema as the
+    only hypotheses -/
+def SupersetFailsAt (F : Facts) (ins : List MergeInput) : Prop :=
+  (∀ i ∈ ins, RootsAreObjects i.schema) ∧ (∀ i ∈ ins, TypesNodup i.schema) ∧
+    ∃ R, mergeSchema F ins = .ok R ∧ ¬ SchemaUnion.Superset (ins.map (·.schema)) R
+
+instance (F : Facts) (ins : List MergeInput) : Decidable (SupersetFailsAt F ins) := by
+  unfold SupersetFailsAt; infer_instance
+
+/-- NEGATION of the full statement, repaired tree: two services with different `Node` interfaces
+    are accepted and the later one's `Node.rev` is gone (open finding C03-node-def-differs) -/
+theorem C03_superset_false_node : SupersetFailsAt expected W.nodeDefs ∧ DirectivesAgree (W.nodeDefs.map (·.schema)) := by
+  decide
+
+/-- NEGATION of the full statement, repaired tree: one directive name with two definitions is
+    accepted and one definition is gone (open finding C03-directive-conflict) -/
+theorem C03_superset_false_directive : SupersetFailsAt expected W.dirConflict ∧ NodeAgree W.dirConflict := by
+  decide
+
+/-- the tree as first read: `Query.node` is dropped when the later service lacks it (all
+    hypotheses of `C03_superset_partial` hold) — repaired by 0002-root-node-field.patch -/
+theorem C03_superset_false_original :
+    SupersetFailsAt original W.nodeLost ∧ NodeAgree W.nodeLost ∧ DirectivesAgree (W.nodeLost.map (·.schema)) := by
+  decide
+
+/-- the tree as first read: `T.id` is dropped from `T{id,x}` + `T{x}` — repaired by
+    0004-keep-id-field.patch (the pair is rejected now) -/
+theorem C03_superset_false_original_id :
+    SupersetFailsAt original W.idLost ∧ NodeAgree W.idLost ∧ DirectivesAgree (W.idLost.map (·.schema)) := by
+  decide
+
+/-- non-vacuity: the hypotheses of the theorems above hold of a mergeable pair (a Node type split
+    field-wise, a shared value type), and of the `Query.node` witness on the repaired tree -/
+example : ∃ R, mergeSchema expected W.plain = .ok R ∧
+    ((∀ i ∈ W.plain, RootsAreObjects i.schema) ∧ (∀ i ∈ W.plain, TypesNodup i.schema) ∧ NodeAgree W.plain ∧
+      DirectivesAgree (W.plain.map (·.schema)) ∧ SchemaUnion.Superset (W.plain.map (·.schema)) R) := by decide
+example : ∃ R, mergeSchema expected W.nodeLost = .ok R ∧ SchemaUnion.Superset (W.nodeLost.map (·.schema)) R := by decide
 
 end PebblesVerif.Merge
